@@ -1124,6 +1124,32 @@ def check_C15(run):
                     run.violation(dict(kind='correspondence-broken', correspondence='L4/setup_comms', remote_state=state, announced_version=announced, deploy=depword[dep], answer_deploy=ans,
                                        impl=got, model=want, fake_log=log), no_input=True)
         run.cov['disagreements_checked'] += len(configs)
+        # ---- every causally possible interleaving of the four handshake lines (stdout-started before both completed lines; per-stream
+        # order), with unrelated ssh output lines in between: the launch must succeed.  A relay in the fake ssh holds the real doer's
+        # lines back and releases them in the given order, 60 ms apart.
+        sb.place_remote('same')
+        orders = [['So', 'Se', 'Co', 'Ce'], ['So', 'Se', 'Ce', 'Co'], ['Se', 'So', 'Co', 'Ce'], ['Se', 'So', 'Ce', 'Co'], ['So', 'Co', 'Se', 'Ce']]
+        trials = []
+        for o in orders:
+            trials.append(o)
+            for _ in range(1 if not thorough else 6):
+                w = list(o)
+                for _ in range(rng.randint(1, 3)):
+                    w.insert(rng.randrange(len(w) + 1), rng.choice('nN'))
+                trials.append(w)
+        for o in trials:
+            for where in (('dest',) if not thorough else ('dest', 'src')):
+                shutil.rmtree(sb.dir + '/dst', ignore_errors=True)
+                src = ('localhost:' if where == 'src' else '') + sb.dir + '/src/'
+                dst = ('localhost:' if where == 'dest' else '') + sb.dir + '/dst/'
+                r = l4.run_cli([src, dst, '--deploy', 'error'], env=sb.env({'FAKE_RELAY_ORDER': ','.join(o)}), timeout=60)
+                synced = os.path.exists(sb.dir + '/dst/sub/g')
+                run.case(('handshake-order', tuple(o), where), True, sample=dict(layer='L4', order=o, remote_side=where, rc=r['rc']) if len(o) == 4 else None)
+                run.count('handshake-order:' + ''.join(x for x in o if x not in 'nN')); run.cov['traces_validated_against_impl'] += 1
+                if r['rc'] != 0 or not synced:
+                    run.violation(dict(kind='oracle-failed-on-implementation', oracle='the launch succeeds for every causally possible interleaving of the stdout / stderr handshake lines and unrelated ssh output lines',
+                                       layer='L4', order=o, remote_side=where, rc=r['rc'], timeout=r['timeout'], stderr=r['err'][-800:]))
+                    break
     finally:
         sb.close()
     run.cov['trusted_base'] = C.GLOBAL_TRUST + ['OsRng key freshness (distinctness is not proved)', 'the fake ssh/scp scripts run the remote command locally under bash; real ssh/scp are not exercised',
@@ -2033,6 +2059,29 @@ def check_C09(run):
                 run.violation(dict(kind='oracle-failed-on-implementation', oracle='the run hands control back within bounded time with a non-zero status', layer='L4',
                                    fault=fault, occupancy=occ, capacity_override=cap, file_bytes=size, placement=place, args=args, env=env, rc=r['rc'], timed_out=r['timeout'],
                                    wall_s=round(r['wall'], 1), stderr=r['err'][-600:]))
+                if len(run.violations) >= 2:
+                    break
+            shutil.rmtree(base, ignore_errors=True)
+        # ---- the TCP link cut at a byte offset (clean end-of-file towards the receiver, or a reset), in either direction, remote source or
+        # remote destination: offsets inside the 8-byte length field, between length and body, inside a small / a large body, at a frame end
+        cuts = []
+        offs = [0, 1, 4, 7, 8, 9, 12, 60, 200, 5000, 70001, 1500001]
+        for direction in ('d2b', 'b2d'):
+            for off in (offs if thorough else rng.sample(offs, 5) + [4, 12]):
+                for mode in (('fin', 'rst') if thorough or off in (4, 12) else (rng.choice(['fin', 'rst']),)):
+                    cuts.append((direction, off, mode, rng.choice(['remote-src', 'remote-dest'])))
+        for k, (direction, off, mode, place) in enumerate(cuts):
+            base, src, dst = mk(f'cut{k}', 1_600_000, 2)
+            mark = os.path.join(base, 'cut-mark')
+            args = [('localhost:' if place == 'remote-src' else '') + src + '/', ('localhost:' if place == 'remote-dest' else '') + dst + '/', '--dest-entry-needs-deleting', 'delete']
+            r = l4.run_cli(args, env=sb.env({'FAKE_CUT': f'{direction}:{off}:{mode}', 'FAKE_CUT_MARK': mark}), timeout=WATCHDOG)
+            subprocess.run(['pkill', '-f', sb.remote + '/rjrssync/rjrssync'], capture_output=True)
+            was_cut = os.path.exists(mark)
+            run.case(('link-cut', direction, off, mode, place), True, sample=dict(layer='L4', fault='link-cut', direction=direction, byte_offset=off, mode=mode, placement=place, cut_happened=was_cut, rc=r['rc'], wall_s=round(r['wall'], 2)) if k % 4 == 0 else None)
+            run.count(f'link-cut:{direction}:{mode}:' + ('cut' if was_cut else 'not-reached'))
+            if r['timeout'] or r['rc'] is None or (was_cut and r['rc'] == 0 and not os.path.exists(os.path.join(dst, 'zlast'))):
+                run.violation(dict(kind='oracle-failed-on-implementation', oracle='a TCP link that ends at any byte offset (end-of-file or reset) ends the run within bounded time, with a non-zero status unless the work was done', layer='L4',
+                                   fault='link-cut', direction=direction, byte_offset=off, mode=mode, placement=place, args=args, rc=r['rc'], timed_out=r['timeout'], wall_s=round(r['wall'], 1), stderr=r['err'][-600:]))
                 if len(run.violations) >= 2:
                     break
             shutil.rmtree(base, ignore_errors=True)
